@@ -96,6 +96,30 @@ class AggWorld(object):
     MB.compute_value = compute_value
     txlog.addObserver(self.log_observer)
     self.errors = []
+    # rule-file reloads: a reload legitimately clears every buffer (values not yet
+    # emitted are dropped); from then on the new rules decide everything
+    rm = w.rules_mod.RuleManager
+    real_read = rm.read_rules
+
+    def read_rules():
+      before = rm.rules_last_read
+      real_read()
+      if rm.rules_last_read != before:
+        me.reference_reload()
+    rm.read_task.f = read_rules
+
+  def reference_reload(self):
+    import os
+    path = os.path.join(os.environ['GRAPHITE_ROOT'], 'conf', 'aggregation-rules.conf')
+    with open(path, encoding='utf-8') as f:
+      self.rules = routeprops.parse_agg_rules(f.read())
+    self.R.clear()
+    self.emitted_n.clear()
+    self.series_rule.clear()
+    self.horizon_ok.clear()
+    self.intervals_seen.clear()
+    self.ctx.probe('rules_reloaded')
+    self.ctx.log.add('rules-reload', len(self.rules))
 
   def log_observer(self, event):
     if event.get('isError'):
@@ -253,8 +277,12 @@ class AggWorld(object):
         r.advance(op[1])
         if op[1] > 100:
           ctx.fault('clock_stall')
+      elif op[0] == 'file':
+        from . import boot
+        boot.write_file(op[1], op[2], int(r.seconds()) + 1)
+        ctx.fault('rules_file_rewritten')
     # quiescence: no input for (MAX+2)*freq + one tick -> everything released
-    maxfreq = max([ru['freq'] for ru in self.rules] or [1])
+    maxfreq = max([ru['freq'] for ru in self.rules] + [60])
     r.advance((self.maxint + 3) * maxfreq + maxfreq + 1)
     bm = self.w.buffers_mod.BufferManager
     if len(bm):
